@@ -819,6 +819,7 @@ fn pam_ops(repo: &str, out: &str) -> Result<String, String> {
     for (c, v) in &code_vals {
         b += &format!("  | .{} => {v}\n", code_name(c)?);
     }
+    b += &format!("def PamCode.all : List PamCode := [{}]\n", codes.iter().map(|c| code_name(c).map(|n| format!(".{n}"))).collect::<Result<Vec<_>, _>>()?.join(", "));
     b += "/-- `enum PamAuthResponse` (unix_proto.rs). -/\ninductive StepKind where\n";
     for s in &steps {
         b += &format!("  | {}\n", lower_first(s));
@@ -827,6 +828,7 @@ fn pam_ops(repo: &str, out: &str) -> Result<String, String> {
     for s in &steps {
         b += &format!("  | .{} => \"{s}\"\n", lower_first(s));
     }
+    b += &format!("def StepKind.all : List StepKind := [{}]\n", steps.iter().map(|c| format!(".{}", lower_first(c))).collect::<Vec<_>>().join(", "));
     b += "/-- `enum ClientResponse` without `PamAuthenticateStepResponse`. -/\ninductive OtherKind where\n";
     for s in &others {
         b += &format!("  | {}\n", lower_first(s));
@@ -835,6 +837,7 @@ fn pam_ops(repo: &str, out: &str) -> Result<String, String> {
     for s in &others {
         b += &format!("  | .{} => \"{s}\"\n", lower_first(s));
     }
+    b += &format!("def OtherKind.all : List OtherKind := [{}]\n", others.iter().map(|c| format!(".{}", lower_first(c))).collect::<Vec<_>>().join(", "));
     b += "/-- `enum PamAuthRequest`. -/\ninductive ReqKind where\n";
     for s in &reqs {
         b += &format!("  | {}\n", lower_first(s));
